@@ -3908,7 +3908,12 @@ static void jdf_generate_internal_init(const jdf_t *jdf, const jdf_function_entr
                 "                           this_task->taskpool->taskpool_id, NULL);\n"
                 "#endif /* defined(PARSEC_PROF_TRACE) && defined(PARSEC_PROF_TRACE_PTG_INTERNAL_INIT) */\n");
     }
-    if( f->flags & JDF_FUNCTION_FLAG_CAN_BE_STARTUP ) {
+    if( (f->flags & JDF_FUNCTION_FLAG_CAN_BE_STARTUP) &&
+        (0 == (f->user_defines & (JDF_HAS_DYNAMIC_TERMDET | JDF_HAS_USER_TRIGGERED_TERMDET))) ) {
+        /* With a dynamic or user-triggered termination detector the local tasks are not counted before the
+         * startup hook creates them, so nb_pending_actions says nothing about them (it only
+         * counts the startup tasks plus the in-flight new-taskpool notification): skipping
+         * the hook there drops every local startup task. */
         coutput("    if( 1 >= __parsec_tp->super.super.nb_pending_actions ) {\n"
                 "        /* if no tasks will be generated let's prevent the runtime from calling the hook and instead go directly to complete the task */\n"
                 "        this_task->status = PARSEC_TASK_STATUS_COMPLETE;\n"
